@@ -36,7 +36,7 @@ def plan(tier):
 
 def required(tier):
     return ["post:parse_gaf_line", "reports_judged", "tpS_mapq_positive", "tp_absent", "mapq0_primary_tp",
-            "multi_record_reads", "cigar_reports", "bgzf_input", "permuted_reports"]
+            "multi_record_reads", "cigar_reports", "bgzf_input", "permuted_reports", "records_without_cigar"]
 
 
 def post_parse_gaf_line(self, line, result):
@@ -71,7 +71,11 @@ def synth(rng, n, sit):
         fields = []
         if tp:
             fields.append(f"tp:A:{tp}")
-        fields += [f"NM:i:{rng.randint(0, 9)}", f"cg:Z:{cg}"]
+        fields += [f"NM:i:{rng.randint(0, 9)}"]
+        if rng.random() < 0.8:  # minigraph without -c writes no cg:Z at all
+            fields.append(f"cg:Z:{cg}")
+        else:
+            sit["records_without_cigar"] += 1
         if rng.random() < 0.3:
             fields.append(f"dv:f:0.{rng.randint(0, 999):03d}")
         rng.shuffle(fields)
@@ -102,7 +106,7 @@ def ref_stat(lines):
         d["ratio"] = max(d["ratio"], (r.qe - r.qs) / r.qlen)
     runs = collections.Counter()
     for r in prim:
-        for n, o in rgaf.cigar_ops(r.cigar()):
+        for n, o in (rgaf.cigar_ops(r.cigar()) if r.cigar() else []):
             runs[o] += 1
     out = {"total": len(recs), "primary": len(prim), "secondary": len(recs) - len(prim),
            "reads": len(reads), "bases": sum(r.matches for r in prim)}
@@ -154,6 +158,8 @@ def run_case(ctx, rng, index, casedir):
     for l in lines:
         r = rgaf.Rec(l)
         tp = r.tag("tp")
+        if r.cigar() is None:
+            sit["records_without_cigar"] += 1
         if tp in ("S", "I") and r.mapq > 0:
             sit["tpS_mapq_positive"] += 1
         if tp is None:
